@@ -6,6 +6,18 @@ ids = [json.loads(l)['id'] for l in open(f'{V}/properties.jsonl')]
 hook_commits = ["d6c2605", "7556b51"]
 
 CLAIMED = {
+ "C09": dict(engine="E1 macro-inproc", technique="exhaustive small-scope enumeration + proptest generation of identifiers; differential oracle = serde_derive's own case.rs",
+   text="All Rust identifiers up to length 4 (quick) / 5 (thorough) over an 11-letter mixed alphabet, a pool of raw/mixed-case/non-ASCII names and proptest identifiers up to length 16 are put, for each of the 8 rules and 4 positions, into a one-field / one-variant item that is expanded by the real derive pipeline in-process; the wire name computed by serde_derive's own (included, unmodified) case.rs must be among the string literals of the expansion.",
+   note="Trusts serde_derive-1.0.215/src/internals/case.rs as the statement of serde's behaviour, and that the embedded string literal is the emitted name (confirmed on compiled code by C01's corpus). Identifiers on which serde_derive itself panics are outside the domain.",
+   ref="DESIGN.md §4 C09"),
+ "C10": dict(engine="E1 macro-inproc", technique="proptest-generated items under metamorphic spelling transformations; oracle = equality of real expansions",
+   text="Generated valid items are rendered in spelling variants (all-serde, all-ts, one list per key, both spellings with equal/different values, one unsupported serde key inserted at every attribute position and list index) and expanded in-process under three feature builds; the expansions of related variants must be equal as token multisets, and with serde-compat off serde attributes must have no effect.",
+   note="Token order is deliberately forgotten (hash-order of dependency statements). The relation is on expansions, not compiled output.",
+   ref="DESIGN.md §4 C10"),
+ "C16": dict(engine="E1 macro-inproc", technique="proptest generation from an attribute grammar wider than the supported fragment; oracle = catch_unwind + documented-rejection table",
+   text="Items with any subset of ts/serde keys (valid, malformed, unknown, duplicated, misplaced) at container/variant/field level over all shapes, generics forms and unusual identifiers are expanded in-process under catch_unwind, with and without serde-compat: no panic; every documented incompatibility present in the ts-spelled (or cleanly serde-spelled) attributes is rejected; a lone unknown ts key is named.",
+   note="The rejection table is Appendix D of DESIGN.md (read off the TS trait docs and assert_validity); field/variant rejections are only expected where the derive processes that field/variant. The 'accepted => compiles' half is checked on compiled corpora (C01..), not here.",
+   ref="DESIGN.md §4 C16"),
  "C08": dict(engine="E4 purefn", technique="exhaustive small-scope enumeration + proptest generation of path pairs against a lexical reference resolver (differential oracle)",
    text="Every pair (importing file, dependency file) over the stated component alphabet is enumerated exhaustively up to directory depth 2 (quick) / 3 (thorough) under 5 base spellings, with and without import-esm, plus proptest-generated odd/long components; each specifier produced by the real import_path (through the cfg(ts_rs_verif) hook) is resolved by an independent lexical resolver and must denote the dependency's file. Exploration level: exhaustive within the bound, sampled beyond it.",
    note="Trusts oracles::paths (60 lines, unit-tested) as the reading of TypeScript's relative-specifier resolution; POSIX only. The hook re-exports the private functions unchanged.",
